@@ -162,6 +162,8 @@ class HSTRPDatagramProtocol(DatagramProtocol, LoggingTrait):
             was_confirmed = True
         elif pdu.pkt_type.is_reject:
             was_handled = True
+            # REJECT is the negative confirmation of our own message, never confirm a confirmation
+            was_confirmed = True
             self.log_warning(f"peer REJECT-ed our request S/N:{pdu.sn}")
             try:
                 self.log_warning(repr(pdu))
